@@ -276,9 +276,12 @@ func runC17(c *Ctx, r *Report, tier string) {
 	// ---- TERM
 	tc := c.Field("alignmentInfo", "terminalColumns")
 	okT := false
+	nonPositive := func(l Lit) bool {
+		return !l.Pos && strings.HasPrefix(l.Term, "lt(0, ") && (strings.Contains(l.Term, "alignmentInfo.terminalColumns(") || strings.Contains(l.Term, "call:getTerminalColumns()"))
+	}
 	for _, s := range c.storesTo(tc) {
-		if k, isC := constInt(s.Store.Val); isC && k == 80 {
-			if _, req := c.Requires(s.Fn, isInstr(s.Store), litHas(false, "lt(0, alignmentInfo.terminalColumns("), nil); req {
+		for _, o := range c.originsOf(s.Store.Val, s.Store) {
+			if k, isC := constInt(o.Val); isC && k == 80 && c.reqAt(rootFn(s.Fn), o, nonPositive) {
 				okT = true
 			}
 		}
